@@ -334,7 +334,8 @@ def step(st, script, entry, codesep_start):
             for k in range(ns):
                 if sv == BASE:
                     sc, found = find_and_delete(sc, push_enc(stack[-isig-k]))
-                    if found and flags & F['CONST_SCRIPTCODE']: raise ScriptFail('SIG_FINDANDDELETE')
+                    # (a signature listed in a --pretend-valid pair may be pushed by the script itself - the documented usage -: no CONST_SCRIPTCODE error for it, as in CHECKSIG)
+                    if found and flags & F['CONST_SCRIPTCODE'] and not any(s_ == stack[-isig-k] and any(stack[-ikey-j] == k_ for j in range(nk)) for s_, k_ in (st.mock or ())): raise ScriptFail('SIG_FINDANDDELETE')
             ok = True
             while ok and ns > 0:
                 sig = stack[-isig]; key = stack[-ikey]
